@@ -344,7 +344,7 @@ def opt_cases(seed: int, n: int) -> list[dict]:
             "NEWLINE", '"k"', '^"k"', '"ß"', '^"ß"', '"a" | "b"', "LETTER"]
     cases = []
     for i in range(n):
-        k = i % 6
+        k = i % 8
         rules = []
         alpha = "ab"
         if k == 0:      # choices of literals sharing prefixes, in every order
@@ -368,6 +368,16 @@ def opt_cases(seed: int, n: int) -> list[dict]:
         elif k == 4:    # every bounded repetition form around sequences
             op = rng.choice(["+", "{2}", "{1,}", "{,2}", "{1,2}", "{0,1}", "{2,3}"])
             rules.append(f'start = {rng.choice(["", "@", "!"])}{{ ("a" ~ "b"?){op} ~ "a"* }}')
+        elif k == 6:    # choices nested through silent rules that inlining flattens
+            inner = rng.choice(['"a" | nb', 'nb | "a"', '"a" | "ab" | nb', "'b'..'a' | \"a\"", '"a" | (nb | "b")'])
+            rules.append(f'start = {{ (sil | {rng.choice(lits[:8])})+ }}')
+            rules.append(f'sil = _{{ {inner} }}')
+            rules.append('nb = { "bb" }')
+        elif k == 7:    # reversed and nested ranges inside squashable choices
+            parts = rng.sample(["'z'..'a'", "'a'..'c'", "'b'..'b'", "'c'..'a'", '"x"', "'a'..'z'", "'c'..'d'", '"b"',
+                                "ASCII_DIGIT", "'0'..'5'", "'3'..'4'"], rng.randint(2, 4))
+            rules.append(f'start = {{ ({" | ".join(parts)})+ ~ "!"? }}')
+            alpha = "abcx3"
         else:           # whitespace shapes the skip-rule fusion looks at
             rules.append('start = { "a" ~ "b" ~ ("a" | "b")* }')
         trivia = rng.choice(TRIVIA) if k != 3 else rng.choice(TRIVIA[1:])
@@ -395,6 +405,8 @@ def opt_cases(seed: int, n: int) -> list[dict]:
             passes = None
         elif r < 0.7:
             passes = [rng.choice(PASS_NAMES)]
+        elif r < 0.85:
+            passes = rng.sample(PASS_NAMES, len(PASS_NAMES))          # a permutation of the whole pipeline
         else:
             passes = [rng.choice(PASS_NAMES) for _ in range(rng.randint(0, 6))]
         alpha = alpha[:5]
@@ -407,4 +419,51 @@ def opt_cases(seed: int, n: int) -> list[dict]:
             "maxlen": 4 if len(alpha) <= 3 else 3,
             "passes": passes,
         })
+    return cases
+
+
+
+# --------------------------------------------------------------------------- stack histories as grammars
+
+def stack_cases(seed: int, n: int) -> list[dict]:
+    """Grammars that drive the user stack through nested backtracking: two or three nested
+    optional / choice / predicate / repetition constructs whose bodies mix DROP, POP, PUSH,
+    PUSH_LITERAL and POP_ALL, the outer ones forced to fail after the inner ones committed,
+    followed by an observation of the whole stack (POP ~ POP ..., PEEK_ALL, PEEK[..])."""
+    rng = random.Random(seed)
+    ops = ["DROP", "DROP", 'PUSH_LITERAL("c")', 'PUSH_LITERAL("a")', 'PUSH("b")', "POP", "PEEK", "POP_ALL", "PEEK[0..1]"]
+    cases = []
+
+    def seq(k):
+        return " ~ ".join(rng.choice(ops) for _ in range(k))
+
+    def block(depth):
+        inner = block(depth - 1) if depth > 0 else ""
+        body = seq(rng.randint(1, 3))
+        if inner:
+            body += " ~ " + inner
+        if rng.random() < 0.5:
+            body += " ~ " + seq(rng.randint(1, 2))
+        tail = rng.choice([' ~ "!"', ' ~ "!"', "", ' ~ "b"'])
+        kind = rng.random()
+        if kind < 0.4:
+            return f"({body}{tail})?"
+        if kind < 0.6:
+            return f"(({body}{tail}) | {seq(1)})"
+        if kind < 0.75:
+            return f"&({body}{tail})"
+        if kind < 0.9:
+            return f"!({body}{tail})"
+        return f"({body}{tail}){{,2}}"
+
+    for _ in range(n):
+        pushes = " ~ ".join(rng.choice(['PUSH_LITERAL("a")', 'PUSH_LITERAL("b")', 'PUSH("a")', 'PUSH_LITERAL("c")'])
+                            for _ in range(rng.randint(1, 3)))
+        obs = rng.choice(["POP ~ POP ~ EOI", "PEEK_ALL ~ EOI", "POP_ALL ~ EOI", "POP ~ POP?", "PEEK[..] ~ EOI",
+                          "POP ~ POP ~ POP? ~ EOI"])
+        g = f"start = {{ {pushes} ~ {block(rng.randint(1, 2))} ~ {obs} }}\n"
+        if rng.random() < 0.3:
+            g += 'WHITESPACE = _{ " " }\n'
+        cases.append({"family": "STACK", "label": "nested backtracking over stack operations",
+                      "grammar": g, "rules": ["start"], "alphabet": "abc!", "maxlen": 4, "starts": "zero"})
     return cases
